@@ -8,6 +8,7 @@
     C <n> | <state>
     create <Type> <nameHex> <ioe> <tmplEnc> <attrsEnc> | now= parts= cfg= ok= parents= file= attrs= <state>
     delete <Type> <nameHex> <cascade> | found= ok= <state>
+    (create/delete lines may end in ` http`: the call went through PUT/DELETE /v1/objects/… and HttpHandler::ProcessRequest)
     <state> = objs=<T:nameHex:api:active:hash,…> items=<T:nameHex,…> files=<hex,…> glob=<hash>
   Output: MISMATCH / SPECFAIL / BADLINE lines and a final STATS line.
 -/
@@ -208,23 +209,12 @@ partial def hasLongNum : Value → Bool
   | _ => false
 end
 
-mutual
-partial def hasMlKey : Value → Bool
-  | .arr xs => xs.any hasMlKey
-  | .dict kvs => kvs.any (fun kv => kv.1.any isLineSep || hasMlKey kv.2)
-  | _ => false
-end
-
 /-- which recorded hazards (known_findings.json) the supplied input contains; appended to the clause name so
     that failures are grouped (and shrunk, and classified) per hazard combination -/
 def hazards (i : CreateIn) : String :=
-  let v := Value.dict i.attrs
   let nul := hasNul (.dict (i.attrs.map (fun kv => (([] : Str), kv.2)))) || i.attrs.any (fun kv => kv.1.contains chNUL)
   (if (i.attrs.any (fun kv => hasLongNum kv.2)) then "+num" else "") ++
-  (if nul then "+nul" else "") ++
-  (if (i.attrs.any (fun kv => hasMlKey kv.2)) then "+mlkey" else "") ++
-  (if i.tmpl.any (fun t => t.any (fun c => c = '"' || c = '\\' || c = '\n')) then "+tmpl" else "") ++
-  (if false && hasNul v then "" else "")
+  (if nul then "+nul" else "")
 
 structure DSt where
   types : List TypeInfo := []
@@ -245,6 +235,7 @@ structure DSt where
   delRefusedNonApi : Nat := 0
   delRefusedDeps : Nat := 0
   cascades : Nat := 0
+  httpOps : Nat := 0
   parsedOk : Nat := 0
   parsedBad : Nat := 0
   caseInteresting : Bool := false
@@ -297,7 +288,9 @@ def handle (d : DSt) (n : Nat) (line : String) : IO DSt := do
       return { d with before := w, st := stOfWorld w [] [], deps := [], fileOf := [], caseNo := d.caseNo + 1,
                       caseInteresting := false, caseFailed := [], tainted := false }
     | none => IO.println s!"BADLINE line={n}"; return d
-  | ["create", ty, nameH, ioe, tmplE, attrsE] =>
+  | "create" :: ty :: nameH :: ioe :: tmplE :: attrsE :: via =>
+    if via != [] && via != ["http"] then IO.println s!"BADLINE line={n}"; return d else
+    let d := if via == ["http"] then { d with httpOps := d.httpOps + 1 } else d
     let inp : Option CreateIn := do
       let name ← unhex nameH
       let ioe ← parseBool? ioe
@@ -393,7 +386,9 @@ def handle (d : DSt) (n : Nat) (line : String) : IO DSt := do
           | none => d.fileOf
         return { d with before := o.after, deps := deps, fileOf := fileOf, st := stOfWorld o.after fileOf deps }
     | _, _ => IO.println s!"BADLINE line={n}"; return d
-  | ["delete", ty, nameH, casc] =>
+  | "delete" :: ty :: nameH :: casc :: via =>
+    if via != [] && via != ["http"] then IO.println s!"BADLINE line={n}"; return d else
+    let d := if via == ["http"] then { d with httpOps := d.httpOps + 1 } else d
     let parsed : Option (Key × Bool × Bool × Option Res × World) := do
       let name ← unhex nameH
       let c ← parseBool? casc
@@ -433,4 +428,4 @@ def handle (d : DSt) (n : Nat) (line : String) : IO DSt := do
 def main : IO Unit := do
   let stdin ← IO.getStdin
   let d ← foldLines stdin handle ({} : DSt)
-  IO.println s!"STATS cases={d.caseNo} steps={d.steps} creates={d.creates} created={d.createdOk} cfg_rejected={d.cfgRejected} create_failed={d.failed} dup_refused={d.dupRefused} ignored={d.ignored} deletes={d.deletes} deleted={d.deletedOk} refused_non_api={d.delRefusedNonApi} refused_deps={d.delRefusedDeps} cascades={d.cascades} text_parsed={d.parsedOk} text_unparsed={d.parsedBad} nontrivial={d.nontrivial} mismatches={d.mismatches} specfails={d.specfails}"
+  IO.println s!"STATS cases={d.caseNo} steps={d.steps} creates={d.creates} created={d.createdOk} cfg_rejected={d.cfgRejected} create_failed={d.failed} dup_refused={d.dupRefused} ignored={d.ignored} deletes={d.deletes} deleted={d.deletedOk} refused_non_api={d.delRefusedNonApi} refused_deps={d.delRefusedDeps} cascades={d.cascades} http_ops={d.httpOps} text_parsed={d.parsedOk} text_unparsed={d.parsedBad} nontrivial={d.nontrivial} mismatches={d.mismatches} specfails={d.specfails}"
